@@ -18,6 +18,9 @@ Scenario:
   handle_enable raises), and the whole list is loaded by ONE core_ports.load([...], trigger_add=True) -- the start-up path;
   ["load", [port specs]] loads a further batch in the middle of the scenario.  Observed in addition: port-add events, and
   per step whether each port is loaded and enabled.  A load that raises is logged (`load_failed`), the scenario goes on.
+  ["restore"]: the REAL api function put_ports (PUT /ports, backup_support on) is given the hub's own current GET /ports
+  document (real get_ports) -- every port is reset() and its attributes / expression / value are restored -- followed by one
+  pass.  Logged: the last values before and after, and what each driver would have answered to a read at that moment.
   K in FAULTS or null.  A "set" (the outside world changes what the driver of a port reads) takes effect at the instant of the
   next tick, immediately before its pass: passes triggered by writes to *other* ports (which exist only in the run with the
   faulty ports) must not sample a source at an instant at which the reference run has no pass.  All dt are multiples of 125 ms, so every virtual time is a dyadic rational and the float arithmetic of
@@ -56,6 +59,7 @@ class Env:
         from qtoggleserver.conf import settings
         settings.persist.driver = 'qtoggleserver.drivers.persist.JSONDriver'
         settings.persist.file_path = None
+        settings.core.backup_support = True          # PUT /ports (the `restore` step)
         from qtoggleserver import persist  # noqa: F401
         from qtoggleserver.core import expressions  # noqa: F401
         from qtoggleserver.core import api as core_api
@@ -182,6 +186,8 @@ class Env:
         self.orig_update = main.update
 
         async def update_wrapper():
+            if not env.main._updating_enabled:       # update() returns at once (e.g. during PUT /ports): not a pass
+                return await env.orig_update()
             origin = env.origin()
             env.log(['pass', env.now_ms(), origin, env.outs(), env.values()])
             try:
@@ -384,6 +390,18 @@ class Env:
                                                                  'virtual seconds' % STUCK_S})
                 elif op == 'set':
                     pending_sets.append((st[1], st[2]))
+                elif op == 'restore':
+                    self.cur_origin = 'restore'
+                    self.log(['restore', self.outs(), self.values()])
+                    how, r = await self.bounded(self.restore())
+                    if how != 'ok':
+                        r = 'stuck' if how == 'stuck' else 'raised:%s: %s' % (type(r).__name__, r)
+                    self.log(['restore_end', self.values(), r])
+                    out.setdefault('restores', []).append([si, r])
+                    if how == 'stuck':
+                        out['stuck'].append({'step': si, 'what': 'PUT /ports did not return within %d virtual seconds' % STUCK_S})
+                    else:
+                        await self.bounded(main.update())      # as after a load: the polling loop's next pass, in both runs
                 elif op == 'load':
                     self.cur_origin = 'load'
                     await self.load_batch(st[1], out, si)
@@ -434,6 +452,23 @@ class Env:
         out['states'] = states
         out['api'] = api_results
         return out
+
+    async def restore(self):
+        handler = types.SimpleNamespace(access_level=self.core_api.ACCESS_LEVEL_ADMIN, username='c15',
+                                        request=types.SimpleNamespace(headers={}, method='PUT', path='/ports', body=b'',
+                                                                      query_arguments={}))
+        try:
+            doc = await self.api_ports.get_ports(handler)
+            doc = json.loads(json.dumps(doc, default=str))
+        except Exception as e:  # noqa: BLE001
+            return 'get_ports raised:%s' % type(e).__name__
+        try:
+            await self.api_ports.put_ports(handler, doc)
+            return '204'
+        except self.core_api.APIError as e:
+            return '%s:%s:%s' % (e.status, e.code, json.dumps(e.params, default=str, sort_keys=True))
+        except Exception as e:  # noqa: BLE001
+            return 'raised:%s: %s' % (type(e).__name__, e)
 
     async def api_write(self, pid, value):
         handler = types.SimpleNamespace(access_level=self.core_api.ACCESS_LEVEL_ADMIN, username='c15',
@@ -509,7 +544,7 @@ def healthy_view(run, H):
         v['ports'].append({p: ['loaded' if s[3] else 'NOT loaded', 'enabled' if s[4] else 'disabled'] for p, s in st.items() if p in H})
     for st in run['states']:
         v['last'].append({p: s[0] for p, s in st.items() if p in H})
-    v['api'] = [a for a in run['api'] if a[1] in H]
+    v['api'] = [a for a in run['api'] if a[1] in H] + [['restore'] + r for r in run.get('restores', [])]
     origin = None
     step = None
     cur_reads = None
@@ -581,6 +616,15 @@ def own_port_check(run):
         k = it[1]
         if k == 'pass':
             cur = {'now': it[2], 'outs': it[4], 'before': it[5], 'reads': [], 'vt': it[0]}
+        elif k == 'restore':
+            rst = {'outs': it[2], 'before': it[3], 'vt': it[0]}
+        elif k == 'restore_end':
+            # PUT /ports resets every port; a port whose driver raises / skips at that moment still shows its last good value
+            for p, (last, _drv, enabled) in rst['before'].items():
+                rd = rst['outs'].get(p, [False, 'val', False])[1]
+                if p in it[2] and rd != 'val' and it[2][p][0] != last:
+                    return {'rule': 'last-good-value', 'port': p, 'vtime_ms': rst['vt'], 'outcome': rd + ' (read while PUT /ports '
+                            'restores the ports)', 'last_value_before': last, 'last_value_after': it[2][p][0]}
         elif k == 'read' and cur is not None:
             cur['reads'].append(it[2])
         elif k == 'pass_exc' and cur is not None:
